@@ -83,6 +83,7 @@ def apply(x, a, op):
 
 
 class Aware(Sub):
+    ambient = True
     name = "aware"
     n = {"quick": 14000, "thorough": 300000}
     shards = {"quick": 3, "thorough": 8}
@@ -126,6 +127,7 @@ class Aware(Sub):
 
 
 class Naive(Sub):
+    ambient = True
     name = "naive"
     backends = ("py",)
     n = {"quick": 5000, "thorough": 100000}
@@ -152,6 +154,7 @@ class Naive(Sub):
 
 
 class FixedOffset(Sub):
+    ambient = True
     name = "fixed_offset"
     backends = ("py",)
     n = {"quick": 4000, "thorough": 80000}
